@@ -54,9 +54,23 @@ def strip_private(rules):
     return [{"pat": r["pat"], "row": r["row"], "ign": r["ign"], "kids": strip_private(r["kids"])} for r in rules]
 
 
-def synth_tree(rules, rnd, depth=0):
+# explicit lines that live next to the defaults inside blocks and are handled by vendor-specific diff / patch logics of the shipped rulebooks
+# (VRF binding re-enters the interface, addresses, plain attributes); at most one of each alternative group per block, put first
+COMPANIONS = {
+    "nexus": [["vrf member A", "vrf member B"], ["ip address 10.0.0.1/24", "ip address 10.0.0.2/24"], ["description x"], ["mtu 9000"]],
+    "cisco": [["vrf forwarding A", "vrf forwarding B"], ["ip address 10.0.0.1 255.255.255.0"], ["description x"]],
+    "huawei": [["ip binding vpn-instance A", "ip binding vpn-instance B"], ["ip address 10.0.0.1 24"], ["description x"], ["mtu 9000"]],
+    "arista": [["vrf A", "vrf B"], ["ip address 10.0.0.1/24"], ["description x"], ["mtu 9000"]],
+}
+
+
+def synth_tree(rules, rnd, depth=0, vendor=None):
     """a tree over rows derived from the implicit rules: instances, the default itself, competing values, unrelated rows"""
     t = od()
+    if depth >= 1 and vendor in COMPANIONS and rnd.random() < 0.6:
+        for group in COMPANIONS[vendor]:
+            if rnd.random() < 0.5:
+                t[rnd.choice(group)] = od()
     for r in rules:
         x = rnd.random()
         rows = []
@@ -78,7 +92,7 @@ def synth_tree(rules, rnd, depth=0):
         for row in rows:
             if not all(w in r["_alphabet"] or w in ("rstp", "7", "other") for w in row) and any(tk["t"] == "set" for tk in r["_toks"]):
                 continue
-            t[" ".join(row)] = synth_tree(r["kids"], rnd, depth + 1) if r["kids"] and rnd.random() < 0.8 else od()
+            t[" ".join(row)] = synth_tree(r["kids"], rnd, depth + 1, vendor) if r["kids"] and rnd.random() < 0.8 else od()
     if rnd.random() < 0.3:
         t["zz unrelated %d" % rnd.randint(1, 2)] = od()
     return t
@@ -96,7 +110,7 @@ def run(ctx):
     ctx.assumptions += ["implicit rule rows are lexed into RuleLang tokens (C07 lexer); single-word regex tables via re.fullmatch",
                         "patch clause uses the shipped rulebook of the hardware; add_comments off, no ACL"]
     recs = []
-    per = 120 if quick else 2500
+    per = 200 if quick else 2500
     # vocabulary for tree synthesis: the union of the rules of all variants of one vendor (a variant must be tested on rows that only
     # OTHER variants have rules for: tables are selected per model and tags)
     vocab = {}
@@ -120,7 +134,8 @@ def run(ctx):
         jr = strip_private(rj)
         for k in range(per):
             voc = rj if k % 3 else vocab[hw.vendor]
-            t, u = synth_tree(voc, rnd), synth_tree(voc, rnd)
+            comp = hw.vendor if k % 2 else None
+            t, u = synth_tree(voc, rnd, 0, comp), synth_tree(voc, rnd, 0, comp)
             if k % 7 == 0:
                 t = od()
             if k % 11 == 0:
